@@ -381,6 +381,7 @@ struct TlsPeer
     if (server) SSL_set_accept_state(ssl);
     else SSL_set_connect_state(ssl);
     auto t0 = Clock::now();
+    int quietMs = 0;
     for (;;)
     {
       ERR_clear_error();
@@ -396,13 +397,28 @@ struct TlsPeer
         err = std::string("handshake: ssl error ") + std::to_string(e) + " " + b;
         return false;
       }
-      int left = timeoutMs - static_cast<int>(msSince(t0));
-      if (left <= 0 || waitFor(e, left) <= 0)
+      // wait in slices and count only slices in which poll() really waited and saw nothing: a
+      // freeze of the whole process/VM advances the wall clock but costs one slice at most
+      (void)t0;
+      bool ready = false;
+      while (quietMs < timeoutMs)
+      {
+        int pr = waitFor(e, 100);
+        if (pr > 0)
+        {
+          ready = true;
+          break;
+        }
+        if (pr < 0) break;
+        quietMs += 100;
+      }
+      if (!ready)
       {
         err = "handshake: timeout";
         lastWant = e;
         return false;
       }
+      quietMs = 0;
     }
   }
   /// >0 bytes, 0 = clean TLS close or TCP EOF, -1 error, -2 timeout
